@@ -32,6 +32,9 @@ import (
 type PProf struct {
 	Sid string `json:"sid"`
 	Ts  int64  `json:"ts"`
+	// W > 0 (profmerge.go): the weight of the profile's single stack, a power of two, so that
+	// a merged total tells exactly which profiles were read
+	W int64 `json:"w,omitempty"`
 }
 
 type profCase struct {
@@ -141,10 +144,15 @@ func buildProfStore(profiles []PProf, keep func(p PProf) bool) *profStore {
 			st.fp[p.Sid] = fp
 			st.dates[p.Sid] = map[chsim.Date]bool{}
 		}
+		ptree, payload, cpu := tree, "bin", int64(100+i)
+		if p.W > 0 {
+			ptree = []any{chsim.Tuple{uint64(0), uint64(1), uint64(10), []any{chsim.Tuple{"cpu:nanoseconds", p.W, p.W}}}}
+			payload, cpu = pprofPayload(p.W, p.Ts), p.W
+		}
 		stu := []any{chsim.Tuple{"cpu", "nanoseconds"}, chsim.Tuple{"u_" + p.Sid, "count"}}
 		tags := []any{chsim.Tuple{"app", "a"}, chsim.Tuple{"k_" + p.Sid, "1"}, chsim.Tuple{"service_name", "svc"}, chsim.Tuple{"sid", p.Sid}}
-		prof = append(prof, []any{uint64(p.Ts), fp, profTypeID, stu, "svc", uint64(1000), "pprof", "bin",
-			[]any{chsim.Tuple{"cpu:nanoseconds", int64(100 + i), int32(1)}, chsim.Tuple{"u_" + p.Sid + ":count", int64(1), int32(1)}}, tree, fns})
+		prof = append(prof, []any{uint64(p.Ts), fp, profTypeID, stu, "svc", uint64(1000), "pprof", payload,
+			[]any{chsim.Tuple{"cpu:nanoseconds", cpu, int32(1)}, chsim.Tuple{"u_" + p.Sid + ":count", int64(1), int32(1)}}, ptree, fns})
 		// profiles_series_mv: toDate(intDiv(timestamp_ns, 1000000000)) as date
 		d := dayOf(p.Ts)
 		st.dates[p.Sid][d] = true
